@@ -28,7 +28,7 @@ PROPS = {
                     "statement keeps its semicolon token and trailing trivia (pair pushed as returned), in the same position.",
         not_decided=["in-range statements come out as in whole-file formatting (relates two runs)", "stmt_block::format_stmt_block touches only nested blocks (assumed, class C)"],
         assumptions=[]),
-    "C03": dict(units=["tok", "args"],
+    "C03": dict(units=["tok", "args"], bounded=[dict(kind="lib", witnesses="C03_BOUNDED")],
         explanation="token/trivia layer: format_token keeps a comment's kind, long-bracket level and text (line comments right-trimmed, block comments newline-normalised) and "
                     "creates only whitespace; format_token_reference / format_symbol / format_eof re-emit the comments of the token they format or replace "
                     "(stated over the comment subsequence cms()); pop_until_no_whitespace removes whitespace only.",
@@ -37,13 +37,13 @@ PROPS = {
                      "a comment dropped inside such a chain is not visible to this unit",
                      "code never ends up inside a comment: only the `line comment is followed by a newline` necessary condition (C01.line_comment_terminated)"],
         assumptions=["TokenReference::new/leading_trivia/trailing_trivia behave as a triple of sequences (class A)"]),
-    "C04": dict(units=["tok", "expr"],
+    "C04": dict(units=["tok", "expr"], bounded=[dict(kind="lib", witnesses="C04_WITNESSES")],
         explanation="quote choice (get_quote_to_use against the counting spec), number rewriting limited to inserting `0` before a leading `.` / after `-` "
                     "(real text of the Number arm through string wrappers; the `.expect` cannot fail), long-bracket strings keep level and only get the newline rewrite.",
         not_decided=["escape rewriting of quoted strings (regexes RE / UNNECESSARY_ESCAPES + closure): assumed value-preserving (verif::rewrite_escapes); C04's escape clause is undecided",
                      "that `0.5` and `.5` denote the same number is the reader's arithmetic, no numeric-literal semantics is specified"],
         assumptions=["std string primitives agree with their Seq<char> specs (class B wrappers)"]),
-    "C10": dict(units=["ctx", "tok", "lib"],
+    "C10": dict(units=["ctx", "tok", "lib"], bounded=[dict(kind="lib", witnesses="C10_WITNESSES")],
         explanation="single source of newline/indent trivia proved against the configuration (ctx); format_token normalises newlines inside block comments/long strings and right-trims line comments; "
                     "format_eof ends a non-empty trivia list with exactly one configured newline; format_code returns the printed AST unmodified.",
         not_decided=["that every trivia-construction site in functions outside the units uses these helpers"],
@@ -97,7 +97,7 @@ PROPS = {
                      "byte-identical output across carriers is implied only through `same Config`; equality of the library's output for equal Configs is determinism of format_code, not proved"],
         assumptions=["ec4rs Properties::get::<T>() returns the parsed value of key T (wrappers); the string parsers generated by property_choice! are macro output (assumed)"],
         technique="Kani complete enumeration of finite enum domains + Verus contracts on mechanically extracted real functions"),
-    "C07": dict(units=["expr", "block", "ctx", "lib", "tok", "cli_io", "diff", "config", "econf", "sort", "args"], kani=["shape"],
+    "C07": dict(bounded=[dict(kind="lib", witnesses="C07_BOUNDED")], units=["expr", "block", "ctx", "lib", "tok", "cli_io", "diff", "config", "econf", "sort", "args"], kani=["shape"],
         explanation="Totality of the library call, decided per function under contract: inside every function whose real text is verified, each panic!/unreachable!/assert!/expect/unwrap, "
                     "each usize subtraction/addition/multiplication and every recursion or loop (decreases) is an obligation Verus discharges for all inputs (one `.total` obligation per function and "
                     "feature set). format_code returns Err(ParseError) iff the input does not parse and never Ok otherwise; format_ast without verification always returns Ok. "
@@ -115,11 +115,11 @@ PROPS = {
                      "groups separated by blank lines (incl. whitespace-only lines), comments, different kinds",
                      "group boundaries by line adjacency: the line arithmetic (current_line - previous_line) is behind a wrapper; its usize subtraction is not checked"],
         assumptions=["parsed ASTs carry positions; local names are identifier tokens (parser)"]),
-    "C02": dict(units=["expr", "block", "lib", "tok", "args"],
+    "C02": dict(units=["expr", "block", "lib", "tok", "args"], bounded=[dict(kind="lib", witnesses="C02_BOUNDED")],
         explanation="expression spine: same obligations as C05 (operator tree, leaves, operators)",
         not_decided=["statement/block/args/token layers are decided in their own units (see runs)"],
         assumptions=[]),
-    "C01": dict(units=["expr", "block", "lib"],
+    "C01": dict(units=["expr", "block", "lib", "tok"], bounded=[dict(kind="lib", witnesses="C01_BOUNDED")],
         explanation="necessary conditions only: `- -x` guard on both paths, right-open expressions never freed under an operator",
         not_decided=["whole-grammar printer correctness"], assumptions=[]),
 }
@@ -194,7 +194,35 @@ C11_WITNESSES = [
     w('local s = "it\'s"\nlocal t = \'say "hi"\'\nlocal u = "plain"\n', oracle="contains", contains='local s = "it\'s"\nlocal t = \'say "hi"\'\nlocal u = \'plain\'\n', quote_style="AutoPreferSingle"),
     w('local s = "it\'s"\nlocal t = \'say "hi"\'\n', oracle="contains", contains='local s = \'it\\\'s\'\nlocal t = \'say "hi"\'\n', quote_style="ForceSingle"),
 ]
+LIT_SRC = ('local a = "it\'s \\"q\\" \\\\ \\a\\b\\f\\n\\r\\t\\v \\65\\066\\x41 \\z   next \\q \\- \\/"\n'
+           "local b = 'say \\\"hi\\\" it\\\'s \\u{48}\\u{20AC} \\\n continued'\n"
+           'local c = [[long\n"raw" \\n]]\nlocal d = [==[\nlevel ]] two]==]\n'
+           'local n = { .5, -.5, 1., 0x.8p1, 0xA.8p0, 0x1F, 1e3, 3.0e-2, 0xff, 5 // 2 }\n')
+C04_WITNESSES = [w(LIT_SRC, oracle="literals", syntax="lua54", quote_style=q) for q in ("AutoPreferDouble", "AutoPreferSingle", "ForceDouble", "ForceSingle")] + [
+    w('local x = 1_000 + 0b1010 + 1_.5 + 0xA_B\nlocal s = `interp {x} "q"`\n', oracle="literals", syntax="luau"),
+    w('local s = "line one\\\r\nline two"\nlocal t = \'a\\\r\nb\'\n', oracle="literals", syntax="lua52"),
+    w('local s = "line one\\\r\nline two"\n', oracle="literals", syntax="luau", line_endings="Windows"),
+]
+WS_SRC = ('--[[ block\r\ncomment\nmixed\r\nendings ]]\nlocal   x = 1   -- trailing   \n\n\n\nif x then -- c\n\tprint(x)   \nend\n'
+          'if x\n--[[ lead ]]\nthen\n  local t = {\n1,\n    2, -- two\n}\nend\nwhile x\n-- cm\ndo end\n-- eof comment\n\n\n')
+C10_WITNESSES = [w(WS_SRC, oracle="whitespace", **o) for o in (dict(), dict(line_endings="Windows"), dict(indent_type="Spaces", indent_width="3"), dict(indent_type="Spaces", indent_width="2", line_endings="Windows"))] + [
+    w('for i = 1, 2\n-- cm\ndo end\n', oracle="whitespace"),          # known finding D14 (see known_findings.txt)
+    w('for k, v in pairs(t)\n-- d\ndo end\n', oracle="whitespace"),   # known finding D14
+]
+TYPE_WITNESSES = [
+    w('type Callback = ((a: number) -> Result) | ((a: number, b: string) -> ()) | nil\nlocal x: (() -> ())? = nil\ntype U = (A & B) | C\nlocal f = function(cb: ((n: number) -> ()) | ((s: string) -> boolean) | nil) end\n', oracle="tree", syntax="luau", sweep=(20, 140)),
+]
+TABLE_COMMENT_WITNESSES = [
+    w('local t = { a, b, -- note\n}\nlocal u = { a, b, --[[x]] }\nlocal v = { a; b; -- semi\n}\nlocal w = {\n a, -- first\n b,\n}\nf({ 1, 2, -- arg\n})\n', oracle="comments", sweep=(20, 140)),
+]
+COLLAPSE_SRC = ('if ready then start() notify(queue) end\nif not item.enabled then -- skip disabled entries\n return nil end\nif a then return end\nif b then x = 1 end\n'
+                'local function f() return 1 end\nlocal function g() print(1) print(2) end\nfunction h()\n\t-- stylua: ignore\n\tfoo(  )\nend\nlocal k = function() -- c\n return 2 end\nif c then goto done end\n::done::\n')
+COLLAPSE_WITNESSES = [w(COLLAPSE_SRC, oracle=o, syntax="lua52", collapse_simple_statement=c, sweep=(20, 120)) for c in ("Always", "ConditionalOnly", "FunctionOnly", "Never") for o in ("tree", "comments")]
+SEMI_COMMENT_WITNESSES = [w('local a = b; -- c\n(f or g)()\nlocal d = e; --[[ blk ]]\n(h)()\nx = 1; -- gone\nreturn x; -- last\n', oracle="comments")]
 WITNESSES = {
+    "C02.stmt": COLLAPSE_WITNESSES, "C01.semicolon": COLLAPSE_WITNESSES[:2] + SEMI_COMMENT_WITNESSES, "C08.block": SEMI_COMMENT_WITNESSES,
+    "C02.": TYPE_WITNESSES, "C03.": TABLE_COMMENT_WITNESSES,
+    "C01.line_comment": C04_WITNESSES + C10_WITNESSES[:4], "C04.": C04_WITNESSES, "C03.token_text": C04_WITNESSES + C10_WITNESSES, "C11.quote_choice": C04_WITNESSES[:4], "C10.": C10_WITNESSES,
     "C11.": C11_WITNESSES, "C02.call_sugar": C11_WITNESSES[:5], "C03.args_conversion": [w('f( --[[c]] "x")\ng("y" --[[d]])\nh("z") -- e\nk( -- l\n{})\n', oracle="comments", call_parentheses="None")],
     "C01.is_brackets_string": BRACKET_WITNESSES, "C01.index_bracket_string": BRACKET_WITNESSES, "C01.bracket_string": BRACKET_WITNESSES,
     "C12.": SORT_WITNESSES,
@@ -206,6 +234,14 @@ WITNESSES = {
     "C05.": EXPR_WITNESSES,
     "C01.double_minus_guard": EXPR_WITNESSES[1:3],
 }
+
+C01_BOUNDED = [x for x in COLLAPSE_WITNESSES if x["oracle"] == "comments"] + BRACKET_WITNESSES
+C02_BOUNDED = TYPE_WITNESSES + [x for x in COLLAPSE_WITNESSES if x["oracle"] == "tree"]
+C03_BOUNDED = TABLE_COMMENT_WITNESSES + SEMI_COMMENT_WITNESSES + [x for x in COLLAPSE_WITNESSES if x["oracle"] == "comments"][:2]
+def nest(n, open_, close): return "local v = " + "".join(open_ for _ in range(n)) + "1" + "".join(close for _ in range(n)) + "\n"
+TIME_WITNESSES = [dict(w(nest(24, "f({ ", " })"), oracle="parse"), time_limit=20), dict(w(nest(22, "f(", ")"), oracle="parse"), time_limit=20),
+                  dict(w(nest(40, "{ ", " }"), oracle="parse"), time_limit=20), dict(w("local v = " + " + ".join(f"a{i}" for i in range(400)) + "\n", oracle="parse"), time_limit=20)]
+C07_BOUNDED = [x for x in COLLAPSE_WITNESSES if x["oracle"] == "tree"] + TIME_WITNESSES    # the replay tool reports a formatter panic as a violation
 
 NOT_APPLICABLE = {
     "C06": "two-run relational property over the whole layout engine with a re-lex in between; no per-function contract expresses it (DESIGN.md §9)",
